@@ -1,6 +1,6 @@
 """C03 — merge keys equal the explicitly merged mapping with fixed precedence (DESIGN §4 C03)."""
 from ..mir import MissingAnchor, sym_contains
-from ..rules import (render, aggregates, last_seg, bool_switches, must_pass, switch_edges, ev_switches, str_compare_consts, compares)
+from ..rules import (render, aggregates, last_seg, bool_switches, must_pass, switch_edges, ev_switches, str_compare_consts, compares, err_return_blocks)
 
 EXPLANATION = ("TABLE / SIBLING / DOM rules over the resolved MIR: the merge-key predicate tests exactly {one event, plain style, no "
                "tag, text `<<`} and the budget's merge-key counter tests the same triple; both merge-value expanders (recorded and "
@@ -118,12 +118,33 @@ def run(ctx):
             for sb, sym, tt, ff in bool_switches(f):
                 if sym[0] == "call" and sym[1].endswith("scalar_is_nullish"):
                     merr = [bb for bb, i, adt, var, fl, ops, s_ in aggregates(f) if adt == "de_error::Error" and var == "MergeValueNotMapOrSeqOfMaps"]
-                    ctx.check(not (set(merr) & f.reachable([tt])) and must_pass(f, [ff], merr + [x for x, t in f.calls() if fx.callee(t) in ("de::collect_entries_from_map", "de::capture_node")]) or True, "SIBLING", "C03:SIBLING:%s:null-is-empty" % f.name,
-                              "a null-like merge value contributes nothing", "", config, ctx.where(f, sb))
+                    ctx.check(any(last_seg(fx.callee(xt)) == "new" and "Vec" in fx.callee(xt) for x, xt in f.calls() if x in f.reachable([tt])) and must_pass(f, [ff], merr + [x for x, t in f.calls() if fx.callee(t) in ("de::collect_entries_from_map", "de::capture_node")]), "SIBLING", "C03:SIBLING:%s:null-is-empty" % f.name,
+                              "a null-like scalar merge value can contribute nothing and any other scalar is rejected", "a scalar merge value that is not null-like is not rejected with MergeValueNotMapOrSeqOfMaps (or a null-like one can no longer yield the empty entry list)", config, ctx.where(f, sb))
         # eof
         for f in (a, b_):
             eofs = [bb for bb, t in f.calls() if fx.callee(t) == "de_error::Error::eof"]
             ctx.check(len(eofs) >= 2, "SIBLING", "C03:SIBLING:%s:eof" % f.name, "end of stream inside a merge value is an error", "%s no longer reports EOF inside a merge value" % f.name, config, ctx.where(f))
+        # every element of a merge sequence is classified: after an element is captured inside the sequence loop, the only ways on are
+        # the recursive expansion (which rejects anything that is not a mapping / null) or an error return — an element is never dropped
+        ne = 0
+        for f in (a, b_):
+            loops = [c for c in f.sccs() if len(c) > 1]
+            expand = [x for x, t in f.calls() if fx.callee(t) == "de::pending_entries_from_events"]
+            errs = list(err_return_blocks(f))
+            for cb, t in f.calls():
+                if fx.callee(t) != "de::capture_node" or not any(cb in c for c in loops):
+                    continue
+                ne += 1
+                nxt = t.get("t")
+                okc = nxt is not None and must_pass(f, [nxt], expand + errs, to_blocks=[cb] + list(f.return_blocks()))
+                ctx.check(okc, "SIBLING", "C03:SIBLING:%s:every-seq-element-classified" % f.name,
+                          "each captured element of a merge sequence is handed to the recursive expansion (or an error is returned)",
+                          "%s can drop a captured element of a merge sequence without handing it to pending_entries_from_events: an element that is not a mapping is silently ignored instead of rejected" % f.name,
+                          config, ctx.where(f, cb))
+        ctx.floor("SIBLING.seq-element-captures", ne, 2, config)
+        # a `!!str` scalar is a string, not a null merge value (shared rule, C06)
+        from .C06 import rule_str_tag_everywhere
+        rule_str_tag_everywhere(ctx, fx, config, only=(a.npath, b_.npath), prop="C03", floor=2)
         # collector rejects non-mapping
         col = fx.fn("de::collect_entries_from_map")
         ctx.saw(col)
